@@ -68,9 +68,11 @@ class RegistryServer(object):
 
     def _remove_service(self, name, addrinfo):
         """removes a single server of the given service"""
-        self.services[name].pop(addrinfo, None)
+        was_member = self.services[name].pop(addrinfo, None) is not None
         if not self.services[name]:
             del self.services[name]
+        if not was_member:
+            return
         try:
             self.on_service_removed(name, addrinfo)
         except Exception:
